@@ -166,6 +166,9 @@ class Layout:
         self.uniform_indent = rng.random() < 0.7
         self.final_newline = rng.random() < 0.7
         self.blank_density = rng.choice([0.0, 0.3, 0.6])
+        # probability that a separator the grammar does not need ('!Assets:Cash', 'USD{', '}@', '2# 3 USD',
+        # '*"payee"', '"a"#tag') is left out
+        self.tight = rng.choice([0.0, 0.0, 0.0, 0.25, 0.6])
 
     def nl(self, rng: random.Random) -> str:
         if self.eol_mode == 'lf':
@@ -181,6 +184,13 @@ class Layout:
 
 def sp(rng: random.Random) -> str:
     return rng.choice([' ', ' ', ' ', '  ', '\t', '   '])
+
+
+def tsp(rng: random.Random, tight: float) -> str:
+    """Separator at a site where the lexer needs none."""
+    if tight and rng.random() < tight:
+        return ''
+    return sp(rng)
 
 
 def inline_comment(rng: random.Random, lay: Layout) -> str:
@@ -211,7 +221,7 @@ def meta_lines(rng: random.Random, lay: Layout, deeper: bool = False, allow_comm
     return out
 
 
-def cost_text(rng: random.Random) -> str:
+def cost_text(rng: random.Random, tight: float = 0.0) -> str:
     comps = []
     k = rng.randrange(9)
     cur = currency_no_slash(rng)
@@ -222,11 +232,11 @@ def cost_text(rng: random.Random) -> str:
     elif k == 3:
         comps.append(f'{expr_text(rng)} {cur}')
     elif k == 4:
-        comps.append(f'{expr_text(rng)} # {expr_text(rng)} {cur}')
+        comps.append(f'{expr_text(rng)}{tsp(rng, tight) if tight else " "}# {expr_text(rng)} {cur}')
     elif k == 5:
         comps.append(f'# {expr_text(rng)} {cur}')
     elif k == 6:
-        comps.append(f'{expr_text(rng)} # {cur}')
+        comps.append(f'{expr_text(rng)}{tsp(rng, tight) if tight else " "}# {cur}')
     elif k == 7:
         comps.append(f'{expr_text(rng)}{cur}' if rng.random() < 0.3 else f'{number_text(rng)} {cur}')
     if rng.random() < 0.3:
@@ -260,7 +270,8 @@ def price_text(rng: random.Random) -> str:
 def posting_line(rng: random.Random, lay: Layout, indent: str) -> str:
     s = indent
     if rng.random() < 0.2:
-        s += rng.choice(FLAGS) + sp(rng)
+        flag = rng.choice(FLAGS)
+        s += flag + (tsp(rng, lay.tight) if flag in '!*?&%' else sp(rng))
     s += account(rng)
     r = rng.random()
     if r < 0.75:
@@ -268,9 +279,9 @@ def posting_line(rng: random.Random, lay: Layout, indent: str) -> str:
         if rng.random() < 0.9:
             s += rng.choice([' ', ' ', '  ']) + currency_no_slash(rng)
             if rng.random() < 0.35:
-                s += sp(rng) + cost_text(rng)
+                s += tsp(rng, lay.tight) + cost_text(rng, lay.tight)
             if rng.random() < 0.3:
-                s += sp(rng) + price_text(rng)
+                s += tsp(rng, lay.tight) + price_text(rng)
     elif r < 0.82:
         s += sp(rng) + currency_no_slash(rng)
     return s + inline_comment(rng, lay)
@@ -348,7 +359,7 @@ def directive_lines(rng: random.Random, lay: Layout, kind: Optional[str] = None)
         return [rng.choice(['* heading', '** sub heading', ': drawer', '#+TITLE: x', '# not a comment', '!bang', 'P legacy price', 'C 1', '*'])]
     d = date_text(rng)
     if kind == 'balance':
-        tol = f'{s(rng)}~{s(rng)}{expr_text(rng)}' if rng.random() < 0.3 else ''
+        tol = f'{tsp(rng, lay.tight)}~{tsp(rng, lay.tight)}{expr_text(rng)}' if rng.random() < 0.3 else ''
         head = f'{d}{s(rng)}balance{s(rng)}{account(rng)}{s(rng)}{expr_text(rng)}{tol}{s(rng)}{currency_no_slash(rng)}{ic}'
     elif kind == 'close':
         head = f'{d}{s(rng)}close{s(rng)}{account(rng)}{ic}'
@@ -379,8 +390,11 @@ def directive_lines(rng: random.Random, lay: Layout, kind: Optional[str] = None)
         flag = rng.choice(['*', '*', '!', 'txn', rng.choice(FLAGS)])
         strings = ''
         for _ in range(rng.choice([0, 1, 1, 2])):
-            strings += s(rng) + string_text(rng)
-        head = f'{d}{s(rng)}{flag}{strings}{tags_links(rng)}{ic}'
+            strings += (tsp(rng, lay.tight) if strings or flag in '*!' else s(rng)) + string_text(rng)
+        tl = tags_links(rng)
+        if tl and strings and lay.tight and rng.random() < lay.tight:
+            tl = tl.lstrip(' \t')
+        head = f'{d}{s(rng)}{flag}{strings}{tl}{ic}'
         lines = [head]
         lines.extend(meta_lines(rng, lay))
         for _ in range(rng.choice([0, 1, 2, 2, 3, 4])):
